@@ -295,7 +295,10 @@ func (o *outcome) absorb(label string, r procResult) {
 	}
 }
 
-var rePanicHead = regexp.MustCompile(`(?m)^.*(\[rapid\] panic after \d+ tests: .*|^panic: .*|^fatal error: .*)$`)
+// a panic report: rapid's "panic after N tests", a process-level panic / fatal error, or rapid's "flaky test" report whose
+// ORIGINAL failure was a run-time panic (a panic that depends on map iteration order or on state left by earlier cases
+// does not reproduce while shrinking; the original traceback is still the report)
+var rePanicHead = regexp.MustCompile(`(?m)^.*(\[rapid\] panic after \d+ tests: .*|^panic: .*|^fatal error: .*|Original traceback \((runtime error: |panic).*)$`)
 
 // libraryPanic extracts a panic report from a test binary's output and says whether the panic originated in the
 // library under test: the first frame that is neither Go runtime, the antlr / protobuf / rapid / testing packages nor a
